@@ -90,3 +90,10 @@ Print Assumptions infer_sound.
 (* non-vacuity: a concrete 2x2 raster  [[E, S], [nodata, pit]]  decodes to 0->1->3, 2 nodata, 3 pit *)
 Example d8_example : d8_from_array 2 2 [1; 4; 247; 0] = [1; 3; 4; 3]%nat.
 Proof. vm_compute. reflexivity. Qed.
+
+(* core.pit_indices regenerated from the source IS the model's pit list *)
+From PF Require Import GenPitIndicesEq.
+From PFG Require Import GenLoops.
+Theorem gen_pit_indices_eq : forall ds, gen_pit_indices ds = pits_of ds.
+Proof. exact GenPitIndicesEq.gen_pit_indices_eq. Qed.
+Print Assumptions gen_pit_indices_eq.
